@@ -492,6 +492,10 @@ def _parse_schema(
             if fullname in names:
                 raise SchemaParseException(f"redefined named type: {fullname}")
             names.add(fullname)
+            if namespace and "." not in fullname:
+                # keep the null namespace explicit so that parsing the output
+                # again does not move the type into the enclosing namespace
+                parsed_schema["namespace"] = ""
 
             _validate_enum_symbols(schema)
 
@@ -508,6 +512,8 @@ def _parse_schema(
             if fullname in names:
                 raise SchemaParseException(f"redefined named type: {fullname}")
             names.add(fullname)
+            if namespace and "." not in fullname:
+                parsed_schema["namespace"] = ""
 
             if default is not NO_DEFAULT and not isinstance(default, str):
                 _raise_default_value_error(default, schema_type, ignore_default_error)
@@ -519,10 +525,13 @@ def _parse_schema(
 
         elif schema_type == "record" or schema_type == "error":
             # records
+            enclosing_namespace = namespace
             namespace, fullname = schema_name(schema, namespace)
             if fullname in names:
                 raise SchemaParseException(f"redefined named type: {fullname}")
             names.add(fullname)
+            if enclosing_namespace and "." not in fullname:
+                parsed_schema["namespace"] = ""
 
             if default is not NO_DEFAULT and not isinstance(default, dict):
                 _raise_default_value_error(default, schema_type, ignore_default_error)
